@@ -61,11 +61,17 @@ pub fn run(seed: u64, rounds: u64) -> StressOut {
     }
     out.kinds.push(("one-cas-winner".into(), a_rounds));
 
-    // B: an acknowledged store is not undone by readers collecting its expired predecessor
+    // B: an acknowledged store is not undone by readers collecting its expired predecessor — on the plain store and behind
+    // the eviction policy (limit out of reach); in every other round the readers are appends, which must answer 'not found'
+    // or extend the NEW value, never the expired one
     let mut b_rounds = 0;
     for round in 0..rounds / 2 {
         let clock = Arc::new(Clock(AtomicU64::new(0)));
-        let store = Arc::new(MemoryStore::new(clock.clone()));
+        let inner = Arc::new(MemoryStore::new(clock.clone()));
+        let behind_policy = round % 2 == 1;
+        let store: Arc<dyn Cache + Send + Sync> = if behind_policy { Arc::new(RandomPolicy::new(inner.clone(), 1 << 40)) } else { inner.clone() };
+        let memc = Arc::new(memcrs::memcache::store::MemcStore::new(store.clone()));
+        let appenders = (round / 2) % 2 == 1;
         let k = key("k");
         store.set(k.clone(), Record::new(key("old"), 0, 0, 1)).unwrap();
         clock.0.store(10, Ordering::SeqCst);
@@ -73,11 +79,15 @@ pub fn run(seed: u64, rounds: u64) -> StressOut {
         let lost = Arc::new(AtomicUsize::new(0));
         let mut hs = vec![];
         for _ in 0..4 {
-            let (store, k, barrier) = (store.clone(), k.clone(), barrier.clone());
+            let (store, memc, k, barrier) = (store.clone(), memc.clone(), k.clone(), barrier.clone());
             hs.push(std::thread::spawn(move || {
                 barrier.wait();
                 for _ in 0..20 {
-                    let _ = store.get(&k);
+                    if appenders {
+                        let _ = memc.append(k.clone(), Record::new(key("+"), 0, 0, 0));
+                    } else {
+                        let _ = store.get(&k);
+                    }
                 }
             }));
         }
@@ -94,9 +104,18 @@ pub fn run(seed: u64, rounds: u64) -> StressOut {
             let _ = h.join();
         }
         b_rounds += 1;
-        if lost.load(Ordering::SeqCst) > 0 || store.get(&k).is_err() {
-            out.violations.push((vec!["C03", "C05"], format!("a store with TTL 0 acknowledged at time 10 is gone: concurrent readers were collecting its expired predecessor (round {})", round)));
+        let fin = store.get(&k);
+        let where_ = if behind_policy { " (behind eviction policy random, limit out of reach)" } else { "" };
+        if lost.load(Ordering::SeqCst) > 0 || fin.is_err() {
+            out.violations.push((vec!["C03", "C05", "C20"], format!("a store with TTL 0 acknowledged at time 10 is gone: concurrent {} were collecting its expired predecessor{} (round {})", if appenders { "appends" } else { "readers" }, where_, round)));
             break;
+        }
+        if let Ok(r) = fin {
+            let (_, _, _, _, val) = r.verif_view();
+            if val.starts_with(b"old") {
+                out.violations.push((vec!["C05", "C06", "C04", "C03"], format!("an append extended the EXPIRED value 'old' and overwrote the value 'new' stored in the meantime: final value {:?}{} (round {})", String::from_utf8_lossy(val), where_, round)));
+                break;
+            }
         }
     }
     out.kinds.push(("ack-not-undone".into(), b_rounds));
